@@ -300,6 +300,11 @@ func RunConc(cfg ConcCfg, t *Trace, seg int) {
 				if cfg.Crash {
 					d.Mark("ret", c.I)
 				}
+				if c.Proc == "READDIRPLUS" {
+					for k := range c.Ents { // a child's size may change while the listing is being built (see NfsSpec.PageRules)
+						c.Ents[k].Size = -1
+					}
+				}
 				if c.St == "PANIC" {
 					atomic.StoreInt32(&wedged, 1)
 				}
